@@ -85,7 +85,7 @@ macro "sok" : tactic => `(tactic| first
   | trivial
   | assumption
   | (simp_all [PExpr.Shaped, PStmt.Shaped, PSet.Shaped, PCmd.Shaped, PPipe.Shaped, PParam.Shaped, PCmd.argList,
-      PSet.LenOkOpt, sk_exprList, sk_exprOpt, sk_stmtList, sk_stmtEls, sk_stmtCatch, slotShape_nil]; done))
+      PSet.LenOkOpt, MulTok, sk_exprList, sk_exprOpt, sk_stmtList, sk_stmtEls, sk_stmtCatch, slotShape_nil]; done))
 
 /-! ### the triple -/
 
@@ -244,7 +244,7 @@ macro "sstep" : tactic => `(tactic| first
   | sprim
   | scall
   | (refine Holds.pure ?_; try sok)
-  | (refine Holds.bind ?_ (fun _ _ => ?_); scall)
+  | (refine Holds.bind (P := ?P) ?hm (fun _ _ => ?hf); case hm => scall)
   | refine Holds.bind (P := Shp.ok) ?_ (fun _ _ => ?_)
   | refine Holds.ite (fun _ => ?_) (fun _ => ?_)
   | (show Holds _ _; split))
@@ -375,7 +375,7 @@ theorem slot_step (acc : List PExpr) (e : PExpr) (slot : Bool) (h : SlotShape ac
     · exact h2
     · simp [isUnd_iff_nt] at h2; exact absurd h2 hu
 
-theorem Holds.errorfF {α} (ps : List MP) : Holds (errorf ps : PM α) (fun _ => False) := Holds.errorf ps
+theorem Holds.errorfF {α} (ps : List MP) : Holds (Parse.errorf ps : PM α) (fun _ => False) := Holds.errorf ps
 
 theorem es_term (n : Nat) (ih : ExprShapes cfg n) :
     HoldsOk (term cfg (n + 1)) := by
